@@ -9,7 +9,8 @@ import json
 import random
 
 LEAVES = ["u32", "string", "ref_u32", "ref_str", "ref_bytes", "static_str"]
-OWNED = {"u32", "string"}
+# `&'static str` is a by-value leaf: it is not borrowed from the mock
+OWNED = {"u32", "string", "static_str"}
 
 
 def ty_rust(t):
